@@ -81,6 +81,7 @@ def rows_vs_trace(rec, trace_by_key, nodes, flags, stats, executed_only=None, su
                     diff(f"inputs[{key}].seq", [int(x) if x >= 0 else -1 for x in onp.asarray(iw.seq[k])], [r["seq"] if r["seq"] >= 0 else -1 for r in rows])
                     diff(f"inputs[{key}].data.h", [int(onp.uint32(x)) for x in onp.asarray(iw.data.h[k])], [r["d_h"] for r in rows])
                     diff(f"inputs[{key}].data.seq", [int(x) for x in onp.asarray(iw.data.seq[k])], [r["d_seq"] for r in rows])
+                    diff(f"inputs[{key}].data.vec", onp.asarray(iw.data.vec[k]).astype(onp.int64).tolist(), [r["d_vec"] for r in rows])
                     real = [r["seq"] >= 0 for r in rows]
                     diff(f"inputs[{key}].ts_recv", [float(x) for x, m in zip(f32(iw.ts_recv[k]), real) if m], [float(f32(r["ts_recv"])) for r, m in zip(rows, real) if m])
                     diff(f"inputs[{key}].ts_sent", [float(x) for x, m in zip(f32(iw.ts_sent[k]), real) if m], [float(f32(r["ts_sent"])) for r, m in zip(rows, real) if m])
